@@ -299,7 +299,8 @@ def parse_woff(b):
         errs.append("file end %d vs last block end %d" % (len(b), end))
     # whole-sfnt checksum of the reconstructed font
     if "head" in tabs and len(tabs["head"]) >= 12 and not errs:
-        img = rebuild_sfnt(flavor, tabs, adj=u32(tabs["head"], 8))
+        # the reconstructed sfnt keeps the table data in the order of the WOFF data blocks
+        img = rebuild_sfnt(flavor, tabs, adj=u32(tabs["head"], 8), order=[t.decode("latin1") for _, _, t in spans])
         _, e2 = validate_sfnt(img)
         for x in e2:
             if x == "checkSumAdjustment":
@@ -307,11 +308,13 @@ def parse_woff(b):
     return flavor, tabs, errs
 
 
-def rebuild_sfnt(version, tabs, adj=None):
-    """Independent sfnt writer: directory sorted by tag, tables in tag order, 4-byte
-    aligned, zero padded; head.checkSumAdjustment recomputed unless adj is given."""
+def rebuild_sfnt(version, tabs, adj=None, order=None):
+    """Independent sfnt writer: directory sorted by tag, table data in `order` (default: tag
+    order), 4-byte aligned, zero padded; head.checkSumAdjustment recomputed unless adj is given."""
     tags = sorted(tabs, key=lambda t: t.encode("latin1"))
     n = len(tags)
+    if order is not None:
+        return _rebuild_ordered(version, tabs, tags, list(order), adj)
     e = 0
     while (1 << (e + 1)) <= n:
         e += 1
@@ -333,6 +336,36 @@ def rebuild_sfnt(version, tabs, adj=None):
             if t == "head":
                 break
             ho += (len(tabs[t]) + 3) & ~3
+        img[ho + 8 : ho + 12] = b"\0\0\0\0"
+        if adj is None:
+            adj = (0xB1B0AFBA - csum(img)) & 0xFFFFFFFF
+        img[ho + 8 : ho + 12] = struct.pack(">L", adj)
+    return bytes(img)
+
+
+def _rebuild_ordered(version, tabs, tags, order, adj):
+    n = len(tags)
+    e = 0
+    while (1 << (e + 1)) <= n:
+        e += 1
+    hdr = struct.pack(">4sHHHH", bytes(version), n, (1 << e) * 16 if n else 0, e if n else 0, (n * 16 - (1 << e) * 16) if n else 0)
+    off = 12 + 16 * n
+    offs = {}
+    body = []
+    for t in order:
+        d = bytes(tabs[t])
+        offs[t] = off
+        pad = (-len(d)) % 4
+        body.append(d + b"\0" * pad)
+        off += len(d) + pad
+    recs = []
+    for t in tags:
+        d = bytes(tabs[t])
+        d2 = d[:8] + b"\0\0\0\0" + d[12:] if t == "head" and len(d) >= 12 else d
+        recs.append(struct.pack(">4sLLL", t.encode("latin1"), csum(d2), offs[t], len(d)))
+    img = bytearray(hdr + b"".join(recs) + b"".join(body))
+    if "head" in tabs and len(tabs["head"]) >= 12:
+        ho = offs["head"]
         img[ho + 8 : ho + 12] = b"\0\0\0\0"
         if adj is None:
             adj = (0xB1B0AFBA - csum(img)) & 0xFFFFFFFF
